@@ -77,6 +77,8 @@ func unreach(i, j int) Event       { return Event{Kind: EvUnreachable, Node: uin
 func reportSnap(i, j, f int) Event { return Event{Kind: EvReportSnap, Node: uint8(i), Peer: uint8(j), Arg: uint16(f)} }
 func forget(i int) Event           { return Event{Kind: EvForgetLeader, Node: uint8(i)} }
 func pauseApply(i, on int) Event   { return Event{Kind: EvPauseApply, Node: uint8(i), Arg: uint16(on)} }
+func pauseAppend(i, on int) Event  { return Event{Kind: EvPauseAppend, Node: uint8(i), Arg: uint16(on)} }
+func confMixed(i, k, n int) Event  { return Event{Kind: EvProposeConf, Node: uint8(i), Peer: uint8(n), Arg: uint16(k)} }
 
 func ticks(i, n int) []Event {
 	var out []Event
@@ -181,7 +183,7 @@ func scriptRestartStages() []Event {
 	return seq(camp(1), crash(2, 0), prop(1), crash(1, 0), camp(2), prop(2), crash(3, CrashAppliedZero), prop(2), crash(2, 0), camp(3), prop(3))
 }
 
-var defaultFaults = []int{int(BDrop), 1, int(BDup), 1, int(BCrash), 1, int(BCampaign), 1, int(BPropose), 1, int(BDelay), 1}
+var defaultFaults = []int{int(BDrop), 1, int(BDup), 1, int(BCrash), 1, int(BCampaign), 1, int(BPropose), 1, int(BDelay), 1, int(BPause), 1}
 
 // ---------------------------------------------------------------- snapshot / compaction
 
@@ -206,6 +208,12 @@ func scriptSnapshotTwice() []Event {
 // goes out while the snapshot itself may still be in flight.
 func scriptSnapshotDivergent() []Event {
 	return seq(camp(3), isolate(3), prop(3), prop(3), prop(3), prop(3), prop(3), camp(1), prop(1), prop(1), prop(1), compact(1, 0), heal(), tick(1), reportSnap(1, 3, 0), tick(1), prop(1), tick(1))
+}
+
+// scriptSnapshotTermChange: a follower's append thread is slow while it installs a
+// snapshot; an election raises its term before the write is acknowledged.
+func scriptSnapshotTermChange() []Event {
+	return seq(camp(1), prop(1), isolate(3), prop(1), compact(1, 0), heal(), tick(1), camp(2), prop(2), pauseAppend(3, 0), prop(2), tick(2), prop(2))
 }
 
 // bfsPagination: the leader proposes a batch of three large
@@ -389,6 +397,30 @@ func scriptFlow() []Event {
 	return seq(camp(1), isolate(3), prop(1), prop(1), prop(1), prop(1), prop(1), heal(), prop(1), unreach(1, 2), prop(1), prop(1), isolate(1), prop(1), prop(1), prop(1), prop(1), heal(), camp(2), prop(2))
 }
 
+// scriptFlowSnapshotLeader: a node that joined through a snapshot later becomes
+// leader and streams to a follower that stops acknowledging.
+func scriptFlowSnapshotLeader() []Event {
+	return seq(camp(1), prop(1), isolate(3), prop(1), compact(1, 0), heal(), tick(1), prop(1), camp(3), prop(3), isolate(2), prop(3), prop(3), prop(3), prop(3), prop(3), heal(), tick(3), prop(3))
+}
+
+// scriptSliceGap: the leader's append thread is held back, so a fresh proposal
+// stays unstable while a lagging follower is probed across stable entries of
+// uneven size (a small one that fits the message limit, a large one that does not).
+func scriptSliceGap() []Event {
+	return seq(camp(1), isolate(3), prop(1), prop(1), heal(), pauseAppend(1, 1), prop(1), prop(1), pauseAppend(1, 0), prop(1))
+}
+
+// scriptMixedBatch: configuration changes proposed in one MsgProp together with normal entries.
+func scriptMixedBatch() []Event {
+	return seq(camp(1), prop(1), confMixed(1, mAddLearner4, 2), prop(1), confMixed(2, mAddVoter4, 1), prop(2), confMixed(1, mRemove3, 2), prop(1))
+}
+
+// scriptJointCheckQuorum: the leader is in a joint configuration and loses contact
+// with a majority of the outgoing voters while the incoming voters keep answering.
+func scriptJointCheckQuorum() []Event {
+	return seq(ticks(1, 3), prop(1), conf(1, 0), ticks(1, 2), prop(1), ticks(1, 1), isolate(2), isolate(3), ticks(1, 8), prop(1), ticks(1, 2))
+}
+
 // ---------------------------------------------------------------- tick driven
 
 func tickCfgs(f feat, n int) []NodeCfg {
@@ -534,6 +566,9 @@ func poolSnapshot(tier string) (p pool) {
 			tickSnap(ddScn("snapshot-divergent", 3, ids(3), f, scriptSnapshotDivergent(), k, fl...)),
 		)
 		p.bfs = append(p.bfs, bfsSnapshot(f, int(BTick), 1), bfsPagination(f, 60))
+		if f.async {
+			p.dd = append(p.dd, tickSnap(ddScn("snapshot-term-change", 3, ids(3), f, scriptSnapshotTermChange(), k, fl...)))
+		}
 	}
 	return
 }
@@ -552,6 +587,9 @@ func poolConf(tier string) (p pool) {
 		cl := ddScn("conf-lag", 3, ids(3), asyncF, scriptConfLag(), k, defaultFaults...)
 		cl.ConfMenu = []ConfSpec{{Changes: "l1"}, {Changes: "l2"}}
 		p.dd = append(p.dd, cl)
+	}
+	for _, f := range []feat{syncF, asyncF} {
+		p.dd = append(p.dd, confSc("mixed-batch", f, scriptMixedBatch(), k, defaultFaults...))
 	}
 	for _, f := range []feat{syncF, asyncF} {
 		cb := append([]int{int(BProposeConf), 1}, defaultFaults...)
@@ -605,6 +643,23 @@ func poolFlow(tier string) (p pool) {
 			s.Budget[BUnreach] = 1
 			p.dd = append(p.dd, s)
 		}
+		// byte window after joining by snapshot
+		{
+			c := flowCfg(f, 8, 40, 40, 0)
+			c.ElectionTick, c.HeartbeatTick, c.Timeout = 10, 1, 10
+			s := ddScn("flow-snapshot-leader", 3, ids(3), f, scriptFlowSnapshotLeader(), k, defaultFaults...)
+			s.Cfg = []NodeCfg{c}
+			s.PropSizes = []int{4, 4, 4, 4, 30, 30, 30, 30, 30, 4, 4}
+			p.dd = append(p.dd, s)
+		}
+	}
+	// uneven entry sizes across the stable/unstable boundary of the leader's log
+	{
+		c := flowCfg(asyncF, 8, 40, 0, 0)
+		s := ddScn("slice-gap", 3, ids(3), asyncF, scriptSliceGap(), k, defaultFaults...)
+		s.Cfg = []NodeCfg{c}
+		s.PropSizes = []int{4, 30, 4, 4, 4, 4}
+		p.dd = append(p.dd, s)
 	}
 	return
 }
@@ -617,6 +672,13 @@ func poolTick(tier string) (p pool) {
 			tickSc("prevote-rejoin", 3, f, scriptPrevoteRejoin(), k, tb...),
 			tickSc("checkquorum-lease", 3, f, scriptCheckQuorumLease(), k, tb...),
 		)
+	}
+	for _, f := range []feat{cqF, pvcqF} {
+		s := ddScn("joint-checkquorum", 5, ids(3), f, scriptJointCheckQuorum(), k, int(BTick), 2, int(BDrop), 1)
+		s.Cfg = tickCfgs(f, 5)
+		s.ConfMenu = []ConfSpec{{Transition: pb.ConfChangeTransitionJointExplicit, Changes: "v4 v5 r2 r3"}}
+		s.TickNodes = []uint8{1}
+		p.dd = append(p.dd, s)
 	}
 	return
 }
@@ -659,6 +721,7 @@ func Jobs(prop, tier string) []*Job {
 	case "C03":
 		add(poolSafety(tier), prop)
 		add(poolSnapshot(tier), prop)
+		add(poolFlow(tier), prop)
 	case "C04":
 		add(poolSafety(tier), prop)
 		add(poolConf(tier), prop)
@@ -687,6 +750,7 @@ func Jobs(prop, tier string) []*Job {
 	case "C07":
 		add(poolElection(tier), prop)
 		add(poolSafety(tier), prop)
+		add(pool{dd: poolSnapshot(tier).dd}, prop)
 	case "C08":
 		add(poolSnapshot(tier), prop)
 		add(poolFlow(tier), prop)
